@@ -137,10 +137,13 @@ def applyPrim (d : Disk) : Prim → Disk
 def applyWrite (d : Disk) (w : Write) : Disk := w.foldl applyPrim d
 def applyWrites (d : Disk) (ws : List Write) : Disk := ws.foldl applyWrite d
 
-/-- a running `RocksStore`: in-memory state machine + the directory -/
+/-- a running `RocksStore`: in-memory state machine + the directory + the snapshot captured by a
+`RocksSnapshotBuilder` that has not persisted it yet (openraft runs `build_snapshot` in a spawned task
+while the store keeps applying) -/
 structure Node where
   mem : SM := {}
   disk : Disk := {}
+  pending : Option Snapshot := none
   deriving DecidableEq, Repr
 
 /-- the operations of a history (the `RaftStorage` calls openraft makes on a `RocksStore`) -/
@@ -149,7 +152,10 @@ inductive Op where
   | append (es : List Entry)
   /-- read the entries after the applied position up to index `j` from the log and apply them -/
   | applyTo (j : Nat)
-  | buildSnapshot
+  /-- `get_snapshot_builder`: capture the state machine (no write) -/
+  | beginSnapshot
+  /-- `build_snapshot` on the captured builder: persist the captured snapshot (one batch) -/
+  | finishSnapshot
   | installSnapshot (s : Snapshot)
   | purge (id : LogId)
   | deleteConflict (id : LogId)
@@ -172,9 +178,11 @@ def writesOf (nd : Node) : Op → List Write
   | .applyTo j =>
       let m := memAfter nd (.applyTo j)
       [[.putApplied m.lastApplied, .putMembership m.membership]]
-  | .buildSnapshot =>
-      let s := buildSnapshot nd.mem
-      [[.putSnapData s, .putSnapMeta s]]
+  | .beginSnapshot => []
+  | .finishSnapshot =>
+      match nd.pending with
+      | some s => [[.putSnapData s, .putSnapMeta s]]
+      | none => []
   | .installSnapshot s =>
       [[.putApplied s.metaLast, .putMembership s.metaMembership, .putSnapData s, .putSnapMeta s]]
   | .purge id =>
@@ -183,8 +191,14 @@ def writesOf (nd : Node) : Op → List Write
   | .deleteConflict id =>
       [(nd.disk.ls.log.filter (fun e => id.index ≤ e.id.index)).map (fun e => Prim.delLog e.id.index)]
 
+/-- the captured, not yet persisted snapshot after an operation -/
+def pendingAfter (nd : Node) : Op → Option Snapshot
+  | .beginSnapshot => some (buildSnapshot nd.mem)
+  | .finishSnapshot => none
+  | _ => nd.pending
+
 def step (nd : Node) (op : Op) : Node :=
-  { mem := memAfter nd op, disk := applyWrites nd.disk (writesOf nd op) }
+  { mem := memAfter nd op, disk := applyWrites nd.disk (writesOf nd op), pending := pendingAfter nd op }
 
 def run (nd : Node) (ops : List Op) : Node := ops.foldl step nd
 
